@@ -48,7 +48,19 @@ async fn run() -> Result<(), String> {
     let _ = router.notify(change(&uri(&root), "include \"inc.td\"\ninclude \"unsaved.td\"\ndef f : Fresh;\n", 3));
     tokio::time::sleep(Duration::from_millis(700)).await;
     let r3 = definition(&mut router, &uri(&root), 2, 8).await?;
+    // an open document reached through a differently spelled path (sub/../inc.td) is still that open document
+    std::fs::create_dir_all(dir.join("sub")).unwrap();
+    let root2 = dir.join("sub").join("root2.td");
+    let root2_text = "include \"../inc.td\"\ndef g : New;\n";
+    std::fs::write(&root2, root2_text).unwrap();
+    let _ = router.notify(open(&uri(&root2), root2_text));
+    tokio::time::sleep(Duration::from_millis(700)).await;
+    let r4 = definition(&mut router, &uri(&root2), 1, 8).await?;
     let _ = std::fs::remove_dir_all(&dir);
+    let target4 = r4.get("uri").and_then(|u| u.as_str()).unwrap_or("");
+    if !target4.ends_with("/inc.td") || target4.contains("..") || r4["range"]["start"]["line"] != 0 || r4["range"]["start"]["character"] != 6 {
+        return Err(format!("after opening sub/root2.td, which includes \"../inc.td\": `New` is declared in the editor's buffer of inc.td (disk has `class Old;`): expected a definition at inc.td 0:6 under the document's own URI, got {r4}"));
+    }
     let target3 = r3.get("uri").and_then(|u| u.as_str()).unwrap_or("");
     if !target3.ends_with("unsaved.td") || r3["range"]["start"]["line"] != 0 || r3["range"]["start"]["character"] != 6 {
         return Err(format!("after including an open, never saved document: `Fresh` is declared in the editor's buffer of unsaved.td (no file on disk): expected a definition at unsaved.td 0:6, got {r3}"));
